@@ -44,7 +44,9 @@ def dispatch (prop : String) (ts : List String) : Option Family :=
       | some op => some { modelOut := op.modelOut, kf := none, expect := op.judge prop, kind := "split" }
       | none =>
         match parseExtractOp ts with
-        | some op => some { modelOut := op.modelOut, kf := none, expect := op.judge prop, kind := "extract" }
+        | some op =>
+          let m := op.modelOut
+          some { modelOut := m, kf := op.kf prop m, expect := op.judge prop, kind := "extract" }
         | none =>
           match parseDoOp ts with
           | some op => some { modelOut := op.modelOut, kf := op.kf prop, expect := op.judge prop,
